@@ -70,7 +70,10 @@ def world_for(starts, L, circ, rotation=0):
     genes = []
     for i, s in enumerate(starts):
         strand = 1 if i % 2 == 0 else -1
-        if isinstance(s, (list, tuple)):
+        if isinstance(s, (list, tuple)) and s[0] == "len":
+            # ["len", start, length]: a gene of another length (nested in / containing other genes)
+            genes.append([f"g{i}", enc(ring_loc((s[1] - rotation) % L, s[2], L, strand))])
+        elif isinstance(s, (list, tuple)):
             genes.append([f"g{i}", enc(_two_exon_gene(s[0], s[1], L, rotation, strand))])
         else:
             genes.append([f"g{i}", enc(ring_loc((s - rotation) % L, W.GENE_LEN, L, strand))])
@@ -91,6 +94,21 @@ def intron_layouts(L):
                 yield [long_gene, a, b]
         for a in spots:
             yield [long_gene, a]
+
+
+def nested_layouts(L):
+    """a long gene with a short gene nested in it (every offset) and a short gene on either side at gaps inside, at and beyond the
+    cutoff of the extenders family: the gene nearest in list order is not the gene nearest in bases"""
+    long_len = 9
+    for long_start in (8,):
+        for offset in range(0, long_len - W.GENE_LEN + 1, 2):
+            nested = long_start + offset
+            for gap in (1, 2, 3, 4):
+                after = long_start + long_len + gap
+                before = long_start - gap - W.GENE_LEN
+                yield [["len", long_start, long_len], nested, after]
+                yield [["len", long_start, long_len], nested, before]
+                yield [["len", long_start, long_len], nested, before, after]
 
 
 def run_pipeline(world, hits, rules_spec):
@@ -161,9 +179,12 @@ def shards(tier):
             nchunks = 4 if fam[0].startswith("chain") else N_CHUNKS
             for chunk in range(nchunks):
                 out.append(["rotation", L, fam[0], chunk, nchunks, tier])
-    for fam in ("mixed", "cond-a-not-b", "cond-cds-a-and-b"):
+    for fam in ("mixed", "cond-a-not-b", "cond-cds-a-and-b", "extenders"):
         for chunk in range(8):
             out.append(["rotation-intron", 24, fam, chunk, 8, tier])
+    for fam in ("extenders", "mixed"):
+        for chunk in range(8):
+            out.append(["rotation-nested", 36, fam, chunk, 8, tier])
     for L in lengths[:1]:
         for circ in (False, True):
             for fam in ("mixed", "superiors", "mixed4"):
@@ -234,12 +255,14 @@ def check_order(world, hits, rules_spec, order):
 
 def run_shard(shard):
     res = Result()
-    if shard[0] in ("rotation", "rotation-intron"):
+    if shard[0] in ("rotation", "rotation-intron", "rotation-nested"):
         _, L, famname, chunk, nchunks, tier = shard
-        fam = [f for f in c03.families("thorough") if f[0] == famname][0] if shard[0] == "rotation-intron" else \
+        fam = [f for f in c03.families("thorough") if f[0] == famname][0] if shard[0] != "rotation" else \
             [f for f in families(tier) if f[0] == famname][0]
         index = 0
-        for starts in (gap_layouts(L, 3) if shard[0] == "rotation" else intron_layouts(L)):
+        for starts in (gap_layouts(L, 3) if shard[0] == "rotation" else intron_layouts(L) if shard[0] == "rotation-intron" else nested_layouts(L)):
+            if shard[0] == "rotation-nested":
+                res.buckets["rotation:nested-genes"] += 1
             if shard[0] == "rotation-intron":
                 res.buckets["rotation:gene-with-long-intron"] += 1
             names = [f"g{i}" for i in range(len(starts))]
